@@ -181,9 +181,12 @@ def decode (w : Nat) : Option Instr :=
     (if f3 = 0 ∧ rd = 0 ∧ rs1 = 0 ∧ bits w 28 4 = 0 then some (.fence (bits w 24 4) (bits w 20 4)) else none)
   else if opcode = 0x73 then
     (if f3 = 0 then
-       (if w = 0x00000073 then some .ecall
-        else if w = 0x00100073 then some .ebreak
-        else if w = 0x30200073 then some .mret
+       -- SYSTEM, funct3 = 0: rd = rs1 = 0 and funct12 selects ECALL / EBREAK / MRET
+       (if rd = 0 ∧ rs1 = 0 then
+          (if bits w 20 12 = 0 then some .ecall
+           else if bits w 20 12 = 1 then some .ebreak
+           else if bits w 20 12 = 0x302 then some .mret
+           else none)
         else none)
      else if f3 = 1 then some (.csr .rw rd rs1 (bits w 20 12))
      else if f3 = 2 then some (.csr .rs rd rs1 (bits w 20 12))
